@@ -340,7 +340,7 @@ def reconstruct(req_cls, bindings, verb, url, body, numeric_enums):
                             raise Mismatch('duplicate', f'field {bbody}.{k} arrives in path and body')
                         seen[f'{bbody}.{k}'] = v
                     seen[bbody] = 'body'
-            elif text not in ('', 'null', '{}'):
+            elif text not in ('', 'null'):
                 raise Mismatch('body-unexpected', f'binding declares no body but {text[:80]!r} was sent')
             # query
             pairs = urllib.parse.parse_qsl(u.query, keep_blank_values=True, strict_parsing=bool(u.query))
